@@ -422,12 +422,27 @@ def corruptions(gen, cid, o):
         elif t == "enum":
             x[s["name"]] = "not-in-vocabulary"
             out.append(("out-of-vocab", s["name"], x))
-        elif t == "ref":
-            bad = dict(k)
-            bad["white"] = not k["white"]
+        elif t == "ref" or (t == "list" and k["of"]["k"] == "ref"):
+            rk = k if t == "ref" else k["of"]
+            wrap = (lambda v: v) if t == "ref" else (lambda v: [v])
+            bad = dict(rk)
+            bad["white"] = not rk["white"]
             try:
-                x[s["name"]] = gen.ref_type(bad) + "--" + gen.uuid()
+                x[s["name"]] = wrap(gen.ref_type(bad) + "--" + gen.uuid())
                 out.append(("bad-ref-type", s["name"], x))
+            except IndexError:
+                pass
+            # a malformed identifier in a reference (the type part stays a legal target)
+            try:
+                ty = gen.ref_type(rk)
+                u = gen.uuid()
+                y = dict(o)
+                y[s["name"]] = wrap(r.choice([
+                    ty + "--evil--" + u, ty + "----" + u, ty + "--" + u + "--" + gen.uuid(), ty + "-" + u, ty + "--" + u[:-1],
+                    ty + "--" + u + "0", ty + "--" + u.replace("-", ""), ty + "--" + u.upper(), ty + "--{" + u + "}",
+                    ty + "--urn:uuid:" + u, ty + "--not-a-uuid", ty + "--", "--" + u, u, ty + "--" + u + "\n",
+                    ty + "--00000000-0000-0000-0000-000000000000", " " + ty + "--" + u, ty + "--" + u + " "]))
+                out.append(("bad-ref-id", s["name"], y))
             except IndexError:
                 pass
         elif t == "id":
@@ -524,12 +539,15 @@ def coconstraint_corruptions(gen, cid, o):
     for m in _re.finditer(r"\((\w+) (<=|<) (\w+)\)", src):
         later, op, earlier = env.get(m.group(1)), m.group(2), env.get(m.group(3))
         if later in slots and earlier in slots:
-            x = dict(o)
-            x[earlier] = "2016-06-01T00:00:00.000Z"
-            x[later] = "2016-06-01T00:00:00.000Z" if (op == "<=" and r.random() < 0.5) else "2015-06-01T00:00:00.000Z"
-            if c["name"] == "NetworkTraffic":
-                x["is_active"] = False
-            out.append(("co-constraint", "%s-before-%s" % (later, earlier), x))
+            # the boundary (equal instants, written differently) and the reversed order
+            for label, lv in (("equals", "2016-06-01T00:00:00Z"), ("before", "2015-06-01T00:00:00.000Z"),
+                              ("just-before", "2016-05-31T23:59:59.999999Z")):
+                x = dict(o)
+                x[earlier] = "2016-06-01T00:00:00.000Z"
+                x[later] = lv
+                if c["name"] == "NetworkTraffic":
+                    x["is_active"] = False
+                out.append(("co-constraint", "%s-%s-%s" % (later, label, earlier), x))
     n = c["name"]
     if n == "NetworkTraffic" and c["ver"] == "2.1":
         x = dict(o)
@@ -591,4 +609,36 @@ def coconstraint_corruptions(gen, cid, o):
         x = dict(o)
         x["pattern"] = r.choice(BAD_PATTERNS)
         out.append(("co-constraint", "bad-pattern", x))
+    return out
+
+
+# ------------------------------------------------------- Python-only argument values
+
+def py_value_cases(gen, cid, o):
+    """Objects in which one property value is not JSON-like (a lazy iterable, a tuple, a set, a datetime):
+    list of (label, slot, object) where the value is written {"__py__": <tag>, "items": [...]}; the
+    implementation worker builds the Python value.  Checked by the oracle only (the model is over JSON)."""
+    r = gen.rng
+    c = gen.classes[cid]
+    out = []
+    for s in c["slots"]:
+        k = s["kind"]
+        name = s["name"]
+        if k["k"] in ("list", "listof"):
+            try:
+                items = gen.value(k, 1, {"safe": True, "owner_type": c["type"]})
+            except (ValueError, IndexError, KeyError):
+                continue
+            for tag, its in (("iter", []), ("genexp", []), ("map", []), ("filter", []), ("tuple", []), ("set", []),
+                             ("iter", items), ("tuple", items), ("genexp", items)):
+                if tag == "set" and its:
+                    continue
+                x = dict(o)
+                x[name] = {"__py__": tag, "items": its}
+                out.append(("py-" + tag + ("-empty" if not its else ""), name, x))
+        elif k["k"] == "time" and name in o:
+            x = dict(o)
+            x[name] = {"__py__": r.choice(["datetime", "datetime-naive", "date"]), "items": [2016, 5, 17, 1, 2, 3, 123456]}
+            out.append(("py-datetime", name, x))
+    r.shuffle(out)
     return out
